@@ -19,7 +19,10 @@ CONFIG = {
             "x 13 host environments (clean, empty, carrying each PLUGIN_* variable, all of them, the cookie with another value, "
             "mux=false, empty values) x launch mode (RunnerFunc capture | Cmd with 4 pre-set cmd.Env variants and a failing exec | "
             "a real child reporting os.LookupEnv and its stdin), cookie / version-set (incl. legacy Plugins fold) / port variants "
-            "rotating with the case index, plus seeded random host/pre-set subsets; the host environment is the harness process's "
+            "rotating with the case index, plus host environments with conditional variables NEXT TO EACH OTHER (every ordered pair at start/middle/end, "
+            "every ordered triple, all 24 orders of the four, separated pairs as control, and the go-plugin entries real outer clients hand to their "
+            "plugins, in their order = a host that is itself a plugin) x 4 configurations, plus seeded random host/pre-set subsets (every other one with "
+            "go-plugin's variables gathered into one adjacent run); the host environment is the harness process's "
             "own os.Environ(), set per case; distinct = distinct case lines; non-trivial = host environment carries a go-plugin "
             "variable or cmd.Env was pre-set",
     "assumptions": ["the AutoMTLS certificate and the socket directory name are random: compared as tokens (CERT/DIR) with the model, "
@@ -31,6 +34,6 @@ CONFIG = {
                     "host environments are built with os.Setenv, so they contain no duplicate keys and no entries without '=' "
                     "(the theorems cover those as well); the magic cookie key contains no '=' and is not a PLUGIN_* negotiation name"],
     "timeout": {"quick": 600, "thorough": 3000},
-    "level_text": "Lean theorems over an executable model of the environment Client.Start builds (Model/Env.lean: append order, last-entry-wins lookup as os/exec and the child's os.Getenv see it): for ALL client configurations, ALL host environments and ALL pre-set cmd.Env, every negotiation variable the plugin acts on (cookie, min/max port, version list, mux flag, client certificate, socket group, socket dir) has exactly the value the configuration dictates \u2014 in particular it is unset when the configuration does not ask for it, whatever the host's own environment carries (controls_from_config, controls_unset_when_not_requested, controls_independent_of_host); with SkipHostEnv no host variable is passed; the rendered version list parses back to a permutation of the offered keys for any map order (versions_exact); stdin is the host's. Witness theorems show the property fails when the inherited-variable filter is missing, partial, or over-broad, or the SkipHostEnv guard is missing. The filter set and the guard are re-extracted from client.go each run; ~1650 cases per run (16 config combinations x 13 host environments x RunnerFunc capture / Cmd with pre-set Env / a real child process reporting os.LookupEnv and its stdin) are compared with the model.",
+    "level_text": "Lean theorems over an executable model of the environment Client.Start builds (Model/Env.lean: append order, last-entry-wins lookup as os/exec and the child's os.Getenv see it): for ALL client configurations, ALL host environments and ALL pre-set cmd.Env, every negotiation variable the plugin acts on (cookie, min/max port, version list, mux flag, client certificate, socket group, socket dir) has exactly the value the configuration dictates \u2014 in particular it is unset when the configuration does not ask for it, whatever the host's own environment carries (controls_from_config, controls_unset_when_not_requested, controls_independent_of_host); with SkipHostEnv no host variable is passed; the rendered version list parses back to a permutation of the offered keys for any map order (versions_exact); stdin is the host's. The filter loop is modelled as written: no conditional variable of the host survives at any position, adjacency or multiplicity (no_conditional_survives, conditional_entries_from_config), which needs the extracted fact that the loop examines every entry (range over os.Environ() into a fresh slice); an in-place index loop that does not step back after a deletion lets the second of two adjacent conditional variables through (inplace_filter_witness) and is indistinguishable from the correct filter on environments without adjacent ones (deleteSkipping_eq_filter_of_no_adjacent). Witness theorems show the property fails when the inherited-variable filter is missing, partial, or over-broad, or the SkipHostEnv guard is missing. The filter set, the loop shape and the guard are re-extracted from client.go each run; ~2050 cases per run (16 config combinations x 13 host environments, ~650 host environments with adjacent conditional variables x RunnerFunc capture / Cmd with pre-set Env / a real child process reporting os.LookupEnv and its stdin) are compared with the model.",
     "level_note": "Full strength on the model. The append order (configured entries after the host's) is tied by the correspondence run only, not by an extracted fact. Host environments with duplicate keys or entries without '=' cannot be produced with os.Setenv and are covered by the theorems only. os/exec's environment de-duplication (last entry wins) is validated by the real-child cases.",
 }
